@@ -606,6 +606,12 @@ def run(rep, tier, seed):
                 els = els[:2] + [els[-1]]
         for el in els:
             items += [(unit, el, w) for w in words]
+        # the verdict goes by the RULE: every other element name governed by this rule gets the shortest words too (a name that
+        # merely resembles a specially treated one - metadataProvider / metadata - must not change it)
+        if unit != "@metadata":
+            short = sorted(words, key=lambda w: (len(w), w))[:24]
+            for el in [e for e in elements.get(unit, []) if e != "metadata" and e not in els]:
+                items += [(unit, el, w) for w in short]
         per_unit[unit] = {"automaton_states": len(d.states), "minimal_states": d.minimal_states, "alphabet": nsig,
                           "extra_states_k": k, "W": len(d.W), "suite_words": len(words), "w_method_words": wm, "sampled": trunc, "accepted_random_walks": len(lw), "pumped_long_words": len(pw)}
     rnd.shuffle(items)
